@@ -9,7 +9,7 @@ import Proofs.C14_Search
 import Proofs.C14_Object
 import Proofs.C14_Counts
 import Proofs.C14_Source
-import Proofs.C04
+import Proofs.C14_C04
 import Mathlib.Data.List.Pairwise
 import Mathlib.Data.List.Perm.Basic
 import Mathlib.Tactic.IntervalCases
@@ -305,7 +305,7 @@ theorem normal_is_reciprocal (V : M3 K) (hdet : M3.det V ≠ 0) (hkl : IV) (L : 
     have : M3.det (castM (K := K) L) = ((M3.det L : ℤ) : K) := by
       simp only [castM, toK, M3.det, V3.dot, V3.cross]; push_cast; ring
     rw [this]; exact_mod_cast hL
-  obtain ⟨n, hn1, c, hc, he⟩ := C16.normal_is_reciprocal (M3.mul (castM L) V) hdetc hkl.x hkl.y hkl.z hne'
+  obtain ⟨n, hn1, c, hc, he⟩ := c16_normal_is_reciprocal (M3.mul (castM L) V) hdetc hkl.x hkl.y hkl.z hne'
   rw [normal_matches_miller V hkl L nOpt r h] at hn1
   cases hn1
   exact ⟨c, hc, he⟩
@@ -1512,10 +1512,10 @@ theorem surface_same_crystal (rbox : Box K) (hdet : M3.det rbox.vects ≠ 0) (sa
   have hbK : ((sb.mult : Int) : K) ≠ 0 := by exact_mod_cast hb
   have hcK : ((sc.mult : Int) : K) ≠ 0 := by exact_mod_cast hc
   have hdets : M3.det (C04.superBox rbox sa sb sc).vects ≠ 0 := by
-    rw [C04.superBox_volume]
+    rw [c04_superBox_volume]
     exact mul_ne_zero (mul_ne_zero (mul_ne_zero haK hbK) hcK) hdet
   refine ⟨rfl, ?_, ?_⟩
-  · simp only [surfaceAtoms, List.length_map, C04.supersize_length]
+  · simp only [surfaceAtoms, List.length_map, c04_supersize_length]
   · intro a' ha'
     simp only [surfaceAtoms, List.mem_map] at ha'
     obtain ⟨a1, ha1, rfl⟩ := ha'
@@ -1530,7 +1530,7 @@ theorem surface_same_crystal (rbox : Box K) (hdet : M3.det rbox.vects ≠ 0) (sa
         = C04.replicaPos rbox sa sb sc a.pos r0 r1 r2 + shift - C05.latticeVec (C04.superBox rbox sa sb sc).vects n := by
       rw [← hn]
       ext <;> simp only [C05.V3.add_def, C05.V3.sub_def] <;> ring
-    rw [e1, latticeVec_superBox, C04.replicaPos_eq rbox sa sb sc a.pos r0 r1 r2 hdet haK hbK hcK]
+    rw [e1, latticeVec_superBox, c04_replicaPos_eq rbox sa sb sc a.pos r0 r1 r2 hdet haK hbK hcK]
     ext <;> simp only [C05.latticeVec, M3.vecMul, C05.V3.add_def, C05.V3.sub_def] <;> push_cast <;> ring
 
 end surface2
@@ -2123,6 +2123,29 @@ theorem surface_cut_between_planes_any (cut : Cut) (rbox : Box ℚ) (hdet : M3.d
   · right; linarith
 
 end between
+
+/-! ### the generated cut check against the model; the object level end to end -/
+section
+variable {K : Type} [Field K] [LinearOrder K] [IsStrictOrderedRing K]
+
+/-- **the generated refusal test is the model's**: on the LAMMPS-normal cell C05's `abcBox?` builds from the rotated cell,
+    the test `FreeSurface.__init__` codes (regenerated from the source) refuses exactly when `cutCompatible` says no, for
+    each of the three cut vectors (cut c is never refused). -/
+theorem gen_cutRefuses_eq_model (sqrt : K → K) (v : M3 K) (hs : C05.SqrtOK sqrt v) :
+    ∃ b2 : Box K, C05.abcBox? sqrt v = some b2 ∧
+      ∀ cut : Cut, (Gen.C14.cutRefuses cut b2.vects ↔ cutCompatible cut v.r0 v.r1 v.r2 = false) := by
+  obtain ⟨b2, h0, ha, hb, hc⟩ := cutCompatible_iff_normalized sqrt v hs
+  refine ⟨b2, h0, ?_⟩
+  intro cut
+  rw [← Bool.not_eq_true]
+  cases cut
+  · exact (not_iff_comm.mp ((gen_cutRefuses_iff .a b2.vects).trans ha.symm)).symm
+  · exact (not_iff_comm.mp ((gen_cutRefuses_iff .b b2.vects).trans hb.symm)).symm
+  · have h1 : ¬ Gen.C14.cutRefuses .c b2.vects := (gen_cutRefuses_iff .c b2.vects).mpr ⟨hc.2.1, hc.2.2⟩
+    constructor
+    · intro h; exact absurd h h1
+    · intro h; exact absurd hc.1 h
+end
 
 -- hypotheses of `surface_cut_between_planes(_any)`: a two-layer cell (`z = 0, 1/4`, `W = 1`) offers the shifts 3/8 and 7/8
 example : shifts (layerCoords 7 ([0, 1 / 4] : List ℚ)) 1 (1 / 10000000) = [3 / 8, 7 / 8] ∧
